@@ -98,6 +98,18 @@ def run(ctx):
             bad.append(("".join(t), None, "corrupt/every-char-at-field-boundaries"))
             if pos in (2, 66, 130):
                 bad.append(("".join(t)[2:], None, "corrupt/every-char-at-field-boundaries"))
+    # texts of exactly 130 (or 0x + 130) BYTES in which a 2-, 3- or 4-byte character lies across a field boundary or elsewhere
+    for ch in ("é", "€", "😀"):
+        w = len(ch.encode("utf8"))
+        for off in (0, 1, 30, 62, 63, 64, 65, 66, 125, 126, 127, 128, 129 - w + 1 - 1):
+            if off < 0 or off + w > 130:
+                continue
+            body = list("".join(rng.choice("0123456789abcdef") for _ in range(130 - w)))
+            t = "".join(body[:off]) + ch + "".join(body[off:])
+            t = t[:len(t) - 2] + "1b" if off + w <= 128 else t
+            for pre in ("", "0x"):
+                assert len((pre + t).encode("utf8")) == 130 + len(pre)
+                bad.append((pre + t, None, "non-ascii/130-bytes-with-a-straddling-character"))
     for v in (0, 1, 26, 29, 255, 0x1a, 0x35, 0x36):
         bad.append(("0x%064x%064x%02x" % (sigs[0][0], sigs[0][1], v), None, "bad-v"))
     NHI, NLO = N >> 128, N & ((1 << 128) - 1)
@@ -161,6 +173,12 @@ def run(ctx):
     for i in range(npipe):
         t = txgen.rand_tx(rng, kind=i % 3, chain=("none" if i % 9 == 0 else None))
         txs.append((t, txgen.render(rng, t)))
+    # chain id 0 (in every spelling) is a chain id: both commands treat it alike
+    for kind in range(3):
+        for _ in range(2):
+            t = txgen.rand_tx(rng, kind=kind, chain=0, small=True)
+            txs.append((t, txgen.render(rng, t)))
+    npipe = len(txs)
     paths = []
     for i, (t, js) in enumerate(txs):
         p = os.path.join(tmp, "tx%d.json" % i)
